@@ -77,7 +77,38 @@ fn case_strategy(max: usize) -> BoxedStrategy<Case> {
         5 => proptest::sample::subsequence(NINE.to_vec(), 1..7).prop_map(Some),
         1 => proptest::collection::vec(prop_oneof![2 => 0u32..32, 2 => 32u32..64, 1 => Just(99u32), 1 => Just(4u32 + 32), 1 => Just(17u32 + 32)], 1..5).prop_map(Some),
     ];
-    (proptest::collection::vec(line_strategy(), 3..max), filt, any::<bool>(), any::<bool>(), prop_oneof![3 => Just(1_000_000i64), 1 => Just(0i64)], prop_oneof![2 => Just(None), 1 => proptest::sample::subsequence(NINE.to_vec(), 1..4).prop_map(Some)]).prop_map(|(lines, filter, count, u, d, m)| Case { lines, filter, count, u, d, m }).boxed()
+    // a value may be given more than once in -f
+    let filt = (filt, proptest::collection::vec(any::<prop::sample::Index>(), 0..3)).prop_map(|(f, dups)| {
+        f.map(|mut v| {
+            for d in dups {
+                if !v.is_empty() {
+                    let x = v[d.index(v.len())];
+                    v.push(x);
+                }
+            }
+            v
+        })
+    });
+    // lines may carry a 12-digit receiver timestamp and decoration
+    let lines = proptest::collection::vec((line_strategy(), 0u8..6, proptest::collection::vec(0u8..16, 12)), 3..max).prop_map(|v| {
+        v.into_iter()
+            .map(|(l, deco, ts)| {
+                let is_frame = (l.len() == 14 || l.len() == 28) && l.iter().all(|b| b.is_ascii_hexdigit());
+                if !is_frame {
+                    return l;
+                }
+                let t: String = ts.iter().map(|x| std::char::from_digit(*x as u32, 16).unwrap().to_ascii_uppercase()).collect();
+                let body = String::from_utf8_lossy(&l).to_string();
+                match deco {
+                    0 => format!("*{};", body).into_bytes(),
+                    1 => format!("@{}{};", t, body).into_bytes(),
+                    2 => format!("{}{}", t, body).into_bytes(),
+                    _ => l,
+                }
+            })
+            .collect::<Vec<_>>()
+    });
+    (lines, filt, any::<bool>(), any::<bool>(), prop_oneof![3 => Just(1_000_000i64), 1 => Just(0i64)], prop_oneof![2 => Just(None), 1 => proptest::sample::subsequence(NINE.to_vec(), 1..4).prop_map(Some)]).prop_map(|(lines, filter, count, u, d, m)| Case { lines, filter, count, u, d, m }).boxed()
 }
 
 fn frame_of(line: &[u8]) -> Option<Frame> {
@@ -259,6 +290,20 @@ fn run(c: &mut Ctx) {
         c.fail(m, "c16:filter_count", json!({"kind":"case","k":k,"cli":false}));
         return;
     }
+    // volume: 70 000 frames of one format (more than 2^16) - the count must still be exact
+    if c.worker == 0 {
+        let f17 = bits::es(17, 5, 0x4840D6, bits::me_raw(28, 7)).hex().into_bytes();
+        let f5 = bits::df5(0xA12345, 0x0808, 0).hex().into_bytes();
+        let mut lines: Vec<Vec<u8>> = vec![f5.clone(), f5.clone(), f5];
+        lines.extend(std::iter::repeat(f17).take(70_000));
+        let k = Case { lines, filter: None, count: true, u: false, d: 1_000_000, m: None };
+        c.eval(1);
+        c.class("volume_70000_frames_of_one_format");
+        if let Err(m) = check_counters_inproc(&k) {
+            c.fail(format!("70 000 DF17 frames and 3 DF5 frames: {}", m), "c16:volume", json!({"kind":"volume"}));
+            return;
+        }
+    }
     let cases = c.tier.pick(320, 6_000);
     let r = c.proptest(cases, case_strategy(40), |c, k, counting| {
         match check_counters_cli(k) {
@@ -283,6 +328,16 @@ fn run(c: &mut Ctx) {
 
 fn replay(c: &mut Ctx, case: &Value) {
     c.eval(1);
+    if case["kind"].as_str() == Some("volume") {
+        let f17 = bits::es(17, 5, 0x4840D6, bits::me_raw(28, 7)).hex().into_bytes();
+        let f5 = bits::df5(0xA12345, 0x0808, 0).hex().into_bytes();
+        let mut lines: Vec<Vec<u8>> = vec![f5.clone(), f5.clone(), f5];
+        lines.extend(std::iter::repeat(f17).take(70_000));
+        if let Err(m) = check_counters_inproc(&Case { lines, filter: None, count: true, u: false, d: 1_000_000, m: None }) {
+            c.fail(m, "c16:volume", case.clone());
+        }
+        return;
+    }
     let Ok(k) = serde_json::from_value::<Case>(case["k"].clone()) else { return c.inconclusive("bad replay") };
     let r = if case["cli"].as_bool().unwrap_or(false) { check_counters_cli(&k) } else { check_filter(&k).and_then(|_| check_counters_inproc(&k)) };
     if let Err(m) = r {
